@@ -181,14 +181,15 @@ def lat3_jobs(ops, doms, tier):
         for o in ops:
             for sw in (0, 1):
                 for sa in range(16):
-                    J.append(Job("lat3", {"op": o, "swap": sw, "sa": sa, "nsym": 1 if tier == "quick" else 2}, defines=("DOM=%d" % d,), budget=300,
-                                 what="%s on %s, operands over different variable sets (left set %d, every right set)" % (o, DOMS[d][0], sa), witnesses=1))
+                    J.append(Job("lat3", {"op": o, "swap": sw, "sa": sa, "nsym": 1}, defines=("DOM=%d" % d,), budget=300,
+                                 what="%s on %s, operands over different variable sets (left set %d, every right set)" % (o, DOMS[d][0], sa), witnesses=1,
+                                 soft=(tier != "quick" and d not in (1, 10))))
     return J
 
 
 def c04_jobs(tier, seed):
     J = hist_jobs(tier, seed, [1, 2], ALL_LIGHT, focus=LATTICE_OPS, ngen_quick=40, ngen_thorough=400)
-    J += lat3_jobs(("join", "meet", "leq"), (1, 10) if tier == "quick" else (1, 2, 6, 10, 12, 18), tier)
+    J += lat3_jobs(("join", "meet", "leq"), (1, 10) if tier == "quick" else (1, 2, 6, 10, 12), tier)
     return J
 
 
@@ -214,7 +215,7 @@ def c05_jobs(tier, seed):
     # known finding F35: the history on which the lookahead widening of a non-increasing pair shows
     J.append(dom_job(15, "cst.le.-1.0.1.1:?,lb.0:?,cpy,asg2.0.1.0.1.1:?,wid,swp,leq", "sound", budget=400, tier=tier))
     # widening / narrowing of operands over different variable sets; for intervals: environment widening = point-wise interval widening
-    J += lat3_jobs(("wid", "nar"), (1, 10) if tier == "quick" else (1, 2, 6, 10, 12, 18), tier)
+    J += lat3_jobs(("wid", "nar"), (1, 10) if tier == "quick" else (1, 2, 6, 10, 12), tier)
     return J
 
 
